@@ -78,6 +78,17 @@ BASES = [BASE,
          ['-w', '2,0,0,0.5,0,0,1.5,.001', '-w', '2,0,0,1.5,0.7,0,1.5,.001', '--excitation-pulse=1', '-f', '10', '--geo-scale=1.5']]
 
 
+BIGBASE = ['-f', '10', '-w', '60,0,0,0,0,0,14,.001', '--excitation-pulse=30']
+
+
+def big_maps(tier):
+    out = [([0.3, 0.2, 0.1], [0.1, 0.1, 0.1], [37, 41, 1]), ([0.3, 0.2, 0.1], [0.1, -0.1, 0.7], [7, 11, 13])]
+    if tier == 'thorough':
+        out += [([0.3, 0.2, 0.1], [0.05, 0.05, 0.1], [97, 89, 1]), ([0.3, 0.2, 0.1], [0.1, 0.1, 0.1], [100, 100, 1]),
+                ([0.3, 0.2, 0.1], [0.1, 0.1, 0.1], [31, 29, 5]), ([0.3, 0.2, 0.1], [0.0, 0.1, 0.1], [3, 67, 23])]
+    return out
+
+
 def base_of(start, inc, n):
     """the model behind a request, a function of the request (so that replays agree); the grid of a request does not
     depend on the model, its units or its transformations"""
@@ -126,6 +137,14 @@ def near_argv(start, inc, n):
 
 
 def replay(rp):
+    if rp.get('kind') == 'near-big':
+        start, inc, n = rp['start'], rp['inc'], rp['n']
+        mb = run_main(BIGBASE, want_mininec=True)['m']
+        mb.compute()
+        mb.compute_near_field(start, inc, n)
+        bad = prop_near(start, inc, n, np.array(mb.near_field_coord).T, len(mb.e_field), len(mb.h_field))
+        print('replay near-big', n, '->', bad or 'property holds')
+        return 1 if bad else 0
     if rp.get('kind') == 'near':
         start, inc, n = rp['start'], rp['inc'], rp['n']
         m, coords, ne, nh = impl_near(start, inc, n, rp.get('prior', ()))
@@ -209,6 +228,21 @@ def run(ck):
         if not same:
             disagreements.append(dict(kind='near', start=start, inc=inc, n=n, prior=prior,
                                       model_points=len(model), impl_points=len(impl), e=ne, h=nh))
+    # field maps of a thousand and more points around a structure of about sixty pulses (sizes without common factors):
+    # the tables still hold exactly the requested points — what evaluation in batches or blocks gets wrong
+    for (start, inc, n) in big_maps(ck.tier):
+        mb = run_main(BIGBASE, want_mininec=True)['m']
+        mb.compute()
+        mb.compute_near_field(start, inc, n)
+        coords = np.array(mb.near_field_coord).T
+        ck.case(('near-big', tuple(n)), True, sample=dict(kind='near-big', n=n, points=len(coords), pulses=len(mb.pulses)))
+        ck.count('near_big_maps')
+        bad = prop_near(start, inc, n, coords, len(mb.e_field), len(mb.h_field))
+        if not bad and not (np.isfinite(np.array(mb.e_field)).all() and np.abs(np.array(mb.e_field)).max(axis=-1).min() > 0):
+            bad = 'a field map of %d points has rows without a field value' % len(coords)
+        if bad:
+            ck.violation(dict(kind='near-big', start=start, inc=inc, n=n, observed=bad))
+            return
     # a few end-to-end reports: number of FIELD POINT blocks printed
     rep_cases = cases[:5] + cases[5:5 + (4 if ck.tier == 'quick' else 20)] + [c for c in cases[5:] if 0.0 in c[1]][:6]
     for (start, inc, n) in rep_cases:
